@@ -291,6 +291,22 @@ class Engine:
 
     def op_exit(self, op):
         rec = self.probes.get(op["id"])
+        if rec is not None and op.get("again") and rec.entered and not rec.active and not rec.dead:
+            # a second deactivation of a probe that is already over: it must change
+            # nothing (whether it is silently accepted or refused)
+            self.sim.reach("deactivated_twice")
+            target = rec.obj if rec.obj is not None else None
+            if target is None:
+                return "noop"
+            before = [list(st["next"]) for st in rec.stages], [st["completed"] for st in rec.stages]
+            try:
+                target.__exit__(None, None, None)
+            except Exception:
+                pass
+            after = [list(st["next"]) for st in rec.stages], [st["completed"] for st in rec.stages]
+            if before != after:
+                self.violate("C17.completed_once", {"probe": rec.id, "second deactivation changed the stages": [before, after]})
+            return "again"
         if rec is None or not rec.active:
             return "noop"
         target = rec.obj if rec.obj is not None else rec.overlay
